@@ -204,6 +204,7 @@ async def base_session(sim, shape, inject):
     finally:
         await asyncio.gather(inj, return_exceptions=True)
         sim.state_at_end = c.state.name       # before the harness's own final close()
+        sim.time_at_end = asyncio.get_event_loop().time()
         if not sim.events or sim.events[-1] != "closeReturn":
             if c.state.name != "CLOSED" or "closeReturn" not in sim.events:
                 try:
@@ -748,8 +749,10 @@ def monitor(sim, sc):
     # C13: whatever faults there were, a client that nobody closed is CONNECTED again in the end (the gateway accepts, and more than
     # ten seconds have passed since the last injected fault)
     closes = sc["action"] in ("close", "eof-close", "close-twice", "close-interrupted") or "close" in str(sc["cb"]) or "close" in sc["status"]
-    if not closes and sc["shape"] != "flap" and sc["action"] != "busy" and sc["connect"][-1] == "ok" and getattr(sim, "state_at_end", "CONNECTED") != "CONNECTED" and "STALL" not in ev:
-        out.append(("C13", "not-recovered", f"at the end of the session (12 s after the last fault, the gateway accepting) the client is {sim.state_at_end}: status log {sim.status_log}"))
+    t_fault = max([t for e, t in zip(ev, getattr(sim, "event_times", [])) if t is not None and e.startswith(("envEof", "envReadErr", "writeFail", "drainFail", "implFail"))] or [0])
+    settled = getattr(sim, "time_at_end", 0) - t_fault > 5.0           # (a fault in the very last send of the session leaves no time to recover)
+    if not closes and settled and sc["shape"] != "flap" and sc["action"] != "busy" and sc["connect"][-1] == "ok" and getattr(sim, "state_at_end", "CONNECTED") != "CONNECTED" and "STALL" not in ev:
+        out.append(("C13", "not-recovered", f"at the end of the session (more than 5 s after the last fault, the gateway accepting) the client is {sim.state_at_end}: status log {sim.status_log}"))
     # C14: when close() returns, the link has been shut (every close() call, also a second one)
     if "--closeReturnedLinkOpen" in ev:
         out.append(("C14", "link-open-at-return", "a close() call returned while the link was still open"))
